@@ -9,6 +9,7 @@ CONSTANTS NsFull,        \* group sizes whose bitmaps (expected length) are enum
           NsAlpha,       \* group sizes with bitmaps over the byte alphabet AlphaBytes
           AlphaBytes,
           NsBig,         \* large groups (63 = shard, 400 = metachain): prefix-shaped bitmaps around the threshold
+          NsFb,          \* group sizes for the fallback-condition family (every header kind x signer counts between the thresholds)
           Modes          \* how header.Signature was aggregated, see SgOf
 
 LogAppend(h, r) == Append(h, r)
@@ -39,34 +40,51 @@ KeepM(bm) == ModeMod = 1 \/ (Mix(bm) + bm[1] \div 16) % ModeMod = SampleRes % Mo
 ReachesMultisig(n, bm, fb) ==
     bm # <<>> /\ Bit(bm, 0) /\ Len(bm) = E(n) /\ OnesCountAll(bm) >= Threshold(n, fb)
 
-CaseOf(mode, n, bm, fb) == [n |-> n, bm |-> bm, fb |-> fb, sg |-> SgOf(mode, n, bm),
+\* header kinds: the two principal ones stand for "fallback off / on" in every family; AllKinds is the full class
+\* table of the fallback condition (round difference negative, 0, small, threshold-1/0/+1, large; previous header in
+\* the pool / only in storage / missing / a shard header under that hash; shard header vs metablock; start of epoch or not)
+Kind(meta, soe, prev, dr) == [meta |-> meta, soe |-> soe, prev |-> prev, dr |-> dr]
+ShardPlain == Kind(FALSE, FALSE, "present", 1)
+MetaFallback == Kind(TRUE, TRUE, "present", MaxRoundsNoSoE)
+MainKinds == {ShardPlain, MetaFallback}
+RoundDiffs == {0 - 900, 0 - 1, 0, 3, MaxRoundsNoSoE - 1, MaxRoundsNoSoE, MaxRoundsNoSoE + 1, 900}
+AllKinds == {Kind(m, s, p, d) : m \in BOOLEAN, s \in BOOLEAN, p \in {"present"}, d \in RoundDiffs}
+              \cup {Kind(m, s, p, d) : m \in BOOLEAN, s \in BOOLEAN, p \in {"storage"}, d \in {0 - 1, MaxRoundsNoSoE}}
+              \cup {Kind(m, s, p, 1) : m \in BOOLEAN, s \in BOOLEAN, p \in {"missing", "wrongtype"}}
+
+CaseOf(mode, n, bm, hk) == [n |-> n, bm |-> bm, hk |-> hk, sg |-> SgOf(mode, n, bm),
                             fg |-> IF mode = "foreign" THEN Selected(n, bm) ELSE {}]
 
 \* Init-time enumeration of the input space (streamed by TLC, no giant constant set)
 ExhaustiveCase(c) ==
-    \E n \in NsFull, fb \in BOOLEAN : \E bm \in Bitmaps(E(n)) : c = CaseOf("sel", n, bm, fb)
+    \E n \in NsFull, hk \in MainKinds : \E bm \in Bitmaps(E(n)) : c = CaseOf("sel", n, bm, hk)
 SampledCase(c) ==
-    \E n \in NsSampled, fb \in BOOLEAN : \E bm \in Bitmaps(E(n)) : Keep(bm) /\ c = CaseOf("sel", n, bm, fb)
+    \E n \in NsSampled, hk \in MainKinds : \E bm \in Bitmaps(E(n)) : Keep(bm) /\ c = CaseOf("sel", n, bm, hk)
 \* dishonest aggregates: only where the crypto stage is reached (everything else is decided before it)
 ModeCase(c) ==
-    \E n \in NsFull \cup NsSampled, fb \in BOOLEAN, m \in Modes \ {"sel"} : \E bm \in Bitmaps(E(n)) :
+    \E n \in NsFull \cup NsSampled, hk \in MainKinds, m \in Modes \ {"sel"} : \E bm \in Bitmaps(E(n)) :
         /\ n \in NsFull \/ Keep(bm)
         /\ KeepM(bm)
-        /\ ReachesMultisig(n, bm, fb)
-        /\ c = CaseOf(m, n, bm, fb)
+        /\ ReachesMultisig(n, bm, FallbackApplies(hk))
+        /\ c = CaseOf(m, n, bm, hk)
 AlphaCase(c) ==
-    \E n \in NsAlpha, fb \in BOOLEAN : \E bm \in [1..E(n) -> AlphaBytes] : c = CaseOf("sel", n, bm, fb)
+    \E n \in NsAlpha, hk \in MainKinds : \E bm \in [1..E(n) -> AlphaBytes] : c = CaseOf("sel", n, bm, hk)
 \* bitmaps of a wrong length (incl. empty); bytes from {0,1,254,255}
 WrongLenCase(c) ==
     \E n \in NsFull \cup NsSampled : \E L \in {l \in {0, E(n) - 1, E(n) + 1} : l >= 0 /\ l <= 3} :
-        \E bm \in [1..L -> {0, 1, 254, 255}] : c = CaseOf("sel", n, bm, FALSE)
+        \E bm \in [1..L -> {0, 1, 254, 255}] : c = CaseOf("sel", n, bm, ShardPlain)
 \* large groups: members 0..k-1 signed (or 1..k: leader missing), padding bits none / all
 BigKs(n, fb) == {kk \in (Threshold(n, fb) - 2)..(Threshold(n, fb) + 1) : kk >= 1 /\ kk <= n - 1}
 BigCase(c) ==
-    \E n \in NsBig, fb \in BOOLEAN, m \in {"sel", "dropHi"} : \E k \in BigKs(n, fb) :
-        \E S \in {0..(k - 1), 1..k}, P \in {{}, n..(8 * E(n) - 1)} : c = CaseOf(m, n, BmOf(S \cup P, E(n)), fb)
+    \E n \in NsBig, hk \in MainKinds, m \in {"sel", "dropHi"} : \E k \in BigKs(n, FallbackApplies(hk)) :
+        \E S \in {0..(k - 1), 1..k}, P \in {{}, n..(8 * E(n) - 1)} : c = CaseOf(m, n, BmOf(S \cup P, E(n)), hk)
+\* the fallback condition: every header kind, honest aggregates of the first k members for every k from below the
+\* fallback threshold up to the normal threshold (no padding bits)
+FallbackCase(c) ==
+    \E n \in NsFb, hk \in AllKinds : \E k \in (PBFTFallbackThreshold(n) - 1)..PBFTThreshold(n) :
+        k >= 1 /\ k <= n /\ c = CaseOf("sel", n, BmOf(0..(k - 1), E(n)), hk)
 
-MCCase(c) == ExhaustiveCase(c) \/ SampledCase(c) \/ ModeCase(c) \/ AlphaCase(c) \/ WrongLenCase(c) \/ BigCase(c)
+MCCase(c) == FallbackCase(c) \/ ExhaustiveCase(c) \/ SampledCase(c) \/ ModeCase(c) \/ AlphaCase(c) \/ WrongLenCase(c) \/ BigCase(c)
 
 EmitDone == (pc' = "done") => PrintT("@@B " \o ToJson(hist'))
 ====
